@@ -577,7 +577,7 @@ pub fn zoo() -> Vec<Entry> {
 			BTreeMap<Simple, Indexed>, (Simple, WithCompact, Discr), Box<TransparentBox>, Vec<UnitS>,
 			TransparentCompact, Box<TransparentCompact>, [TransparentCompact; 3], Rc<TransparentEncodedAs>, [TransparentEncodedAs; 2],
 			Box<SingleCompact>, [WithCompact; 2], Arc<Arc<Arc<u32>>>, Rc<Rc<u8>>, Vec<Arc<Vec<Arc<u16>>>>, Option<Arc<ArcChain>>, Box<DataFixed>, [Data; 2], Arc<Nested>, Box<TupEnum>,
-			Amount, Balance, Vec<Amount>, [Balance; 2],
+			Amount, Balance, Vec<Amount>, [Balance; 2], MelBound<[u8; 4]>, MelBound<Option<u16>>,
 			Compact<CWrap8>, Compact<CWrap16>, Compact<CWrap64>, Compact<CWrap128>, (Compact<CWrap16>, [Compact<CWrap8>; 3], Option<Compact<CWrap64>>),
 			Marker, MarkerPair, [Marker; 4], Box<[Marker; 4]>, ([Marker; 2], u16), Vec<Marker>, [[Marker; 2]; 2], [MarkerPair; 3],
 			Rc<[Marker; 3]>, Option<[Marker; 1]>, (Arc<[MarkerPair; 2]>, Vec<u8>), Vec<[Marker; 2]>,
@@ -605,7 +605,7 @@ pub fn zoo() -> Vec<Entry> {
 			mark!(v; mel: UnitS, WithSkip, WithCompact, WithEncodedAs, SingleCompact, SingleCompact16, AllSkip, Simple, Indexed,
 				Discr, DataFixed, TransparentArr, TransparentZst, CWrap, Option<Simple>, Box<TransparentArr>, [TransparentZst; 2],
 				TransparentCompact, Box<TransparentCompact>, [TransparentCompact; 3], [TransparentEncodedAs; 2], Compact<CWrap>,
-				Amount, Balance, [Balance; 2],
+				Amount, Balance, [Balance; 2], MelBound<[u8; 4]>, MelBound<Option<u16>>,
 				Compact<CWrap8>, Compact<CWrap16>, Compact<CWrap64>, Compact<CWrap128>, (Compact<CWrap16>, [Compact<CWrap8>; 3], Option<Compact<CWrap64>>),
 				Marker, MarkerPair, [Marker; 4], Box<[Marker; 4]>, ([Marker; 2], u16), [[Marker; 2]; 2], [MarkerPair; 3], Option<[Marker; 1]>,
 				(Simple, WithCompact, Discr));
